@@ -6,6 +6,14 @@ ROOT = os.path.dirname(os.path.dirname(os.path.abspath(__file__)))
 
 # id -> (level category, level text, level note, technique, design ref)
 CHECKS = {
+ "C07": ("exploration",
+   "A scripted backend returns a generated error from one of 33 carrier sites covering all 18 methods; the same call is made 1, 2 and 3 server->client hops away (in-process transport, ~6% over real loopback) and errors.Is against the 15 standard values, HTTP status (hand-transcribed table, else own status, else 500), detail JSON and message fixed point are compared with the original. (site x code) pairs are enumerated cyclically, wrapping/status/message/detail classes are random; 6e4 chains quick, 3e6 thorough.",
+   "Trusted: the hand-transcribed status table and the harness stubs. HEAD carriers are judged by status and stability only; ErrRangeInvalid is preservation-only; e0 uses by-code Is. Three recorded known findings (context wrappers defeat prefix trimming) are reported as KNOWN-FINDING.",
+   "runtime monitor: scripted error injection + multi-hop differential on error identity/status/detail/message", "3/C07"),
+ "C18": ("fault_enumeration",
+   "32 operation variants covering all 18 client methods (readers read to EOF, iterators driven, writers exercised) run against a scripted RoundTripper that answers request i with response i and refuses everything after the script. Enumerated: every variant x request position x 16 statuses x ~20 body classes, 99 header mutations, 15 wire framings, 6 page sizes (7e4 cases); sampled: multi-defect scripts and page sequences (6e4 quick / 3e6 thorough). Oracle: no panic, the call returns (watchdog with long re-wait), round trips within an operation-specific bound computed from the responses given.",
+   "Trusted: http.ReadResponse for wire parsing, the lenient page-size reading (can only over-count, so 'short page' is certain). A hang verdict needs a 30 s + 120 s wait; 3xx responses carry no Location.",
+   "runtime monitor: scripted hostile server (fault enumeration) + panic/hang/progress oracle", "3/C18"),
  "C08": ("exploration",
    "Race-detector build. (1) a Write is forced into the window between Buffer.Commit's digest check and its store through a verif scheduling point, every run; (2) stress of the named invariants (a tag kept on an existing manifest is never reported missing, direct and over HTTP; a commit under concurrent writers stores bytes matching its digest); (3) 1.5e3/2e4 short concurrent histories with unique values recorded at the call boundary and checked by porcupine against the sequential reference model; (4) 2-16 goroutines hammering 2 repositories, 3 blobs, 2 tags and 2 shared upload sessions directly and through ociserver, under GOMAXPROCS 2/4/16. Schedules are sampled: a race on a path or interleaving no workload produced stays invisible.",
    "Trusted: Go race detector, porcupine v1.3.0, the reference model as sequential specification. Histories use at most one Commit per session and no Cancel. Porcupine is applied to direct-call histories only.",
